@@ -197,6 +197,16 @@ func RunIn(dir string, c *Case, relative bool) (res Result) {
 			res = Result{Panic: fmt.Sprintf("%v\n%s", r, trimStack(debug.Stack())), Warnings: warnings}
 		}
 	}()
+	if relative {
+		cwd, err := os.Getwd()
+		if err != nil {
+			return Result{Err: "harness: " + err.Error()}
+		}
+		if err := os.Chdir(dir); err != nil {
+			return Result{Err: "harness: " + err.Error()}
+		}
+		defer func() { _ = os.Chdir(cwd) }()
+	}
 	g, err := generator.New(c.Config.ToGenerator(func(s string) { warnings = append(warnings, s) }))
 	if err != nil {
 		return Result{Err: err.Error(), Warnings: warnings}
